@@ -93,18 +93,14 @@ func CreateAbsoluteURL(url string, base *nurl.URL) string {
 		return url
 	}
 
-	// If it is already an absolute URL, return as it is
-	tmp, err := nurl.ParseRequestURI(url)
-	if err == nil && tmp.Scheme != "" && tmp.Hostname() != "" {
+	// If it can't be parsed, or it is already an absolute URL (whatever its
+	// scheme is, e.g. "mailto:", "file:///" or "JavaScript:"), return as it is.
+	tmp, err := nurl.Parse(url)
+	if err != nil || tmp.Scheme != "" {
 		return url
 	}
 
 	// Otherwise, resolve against base URI.
-	tmp, err = nurl.Parse(url)
-	if err != nil {
-		return url
-	}
-
 	return base.ResolveReference(tmp).String()
 }
 
